@@ -121,7 +121,7 @@ def main():
     suites = P["suites"](tier)
     cfgs = []
     for s in suites:
-        if s.cfg not in cfgs:
+        if s.cfg not in cfgs and not hasattr(s, "run_custom"):
             cfgs.append(s.cfg)
     built = ajlib.build_harnesses(cfgs, )
     exes = {}
@@ -138,6 +138,24 @@ def main():
     disagreements = []
     per_suite = {}
     for s in suites:
+        if hasattr(s, "run_custom"):
+            r = s.run_custom(ajlib, rng, tier)
+            if "error" in r:
+                violations.append(("build:harness", "the thread harness does not compile against /repo:\n" + r["error"][-1200:],
+                                   {"no_failing_input": True, "broken": "thread harness build", "log": r["error"][-3000:]}))
+                finish()
+            total += r["evaluations"]
+            for ft in r["features"]:
+                features.add((s.name, ft))
+            samples += r["samples"]
+            for sig, desc, rep in r["violations"]:
+                k = match_known(known, prop, sig)
+                if k:
+                    known_hits[k["id"]] = k
+                else:
+                    violations.append((sig, desc, rep))
+            per_suite[s.name] = {"cases": r["evaluations"], "disagreements": 0, "oracle_failures": len(r["violations"])}
+            continue
         exe = exes[json.dumps(s.cfg, sort_keys=True)]
         cases = s.generate(rng, tier)
         if a.replay:
